@@ -216,6 +216,53 @@ fn fresh_thread_twin(spec: &Spec, st: &mut Stats, sink: &Sink) {
     }
 }
 
+/// Clones taken after the window has slid, on histories of non-representable values: a clone does
+/// not share the physical layout of its original's buffers (a cloned VecDeque is contiguous), so
+/// anything that depends on that layout - an order of summation, a capacity - shows as a clone that
+/// stops agreeing with its original bit for bit.
+fn clone_after_slide(spec: &Spec, st: &mut Stats, sink: &Sink) {
+    let letters: [f64; 3] = if needs_positive(spec) { [0.1, 0.7, 3.3] } else { [0.1, 0.7, -3.3] };
+    let w = spec.total_n().max(1);
+    st.configs += 1;
+    for cyc in crate::explore::cycles(&letters, 3) {
+        let total = 3 * w + 16;
+        let hist: Vec<f64> = (0..total).map(|i| cyc[(i * 2 + i / 5) % cyc.len()]).collect();
+        let r = guard(|| {
+            let mut orig = build::<f64>(spec);
+            let mut clones: Vec<(usize, Dyn<f64>)> = vec![];
+            for i in 0..total {
+                orig.update(hist[i]);
+                let o = obs(&orig);
+                for (born, c) in clones.iter_mut() {
+                    c.update(hist[i]);
+                    if obs(c) != o {
+                        return Some((i, *born, o.1.clone(), obs(c).1));
+                    }
+                }
+                if i == w || i == 2 * w + 1 || i == 3 * w {
+                    clones.push((i, orig.clone()));
+                }
+            }
+            None
+        });
+        st.transitions += 3 * total as u64;
+        st.states += total as u64;
+        st.oracle_evals += total as u64;
+        st.traces += 1;
+        match r {
+            Ok(Some((i, born, o, c))) => {
+                sink.push(Violation::new("C17", spec, "clone-continues", "f64", &hist[..=i], format!("a clone taken after update {} and fed the same inputs as its original reports {} at update {} where the original reports {}", born + 1, c, i + 1, o)));
+                return;
+            }
+            Ok(None) => {}
+            Err(_) => {
+                st.bump("panicked_steps_not_judged", 1);
+                return;
+            }
+        }
+    }
+}
+
 fn check_closure(spec: &Spec, cap: usize, st: &mut Stats, sink: &Sink) {
     let alpha = alphabet(spec);
     let root = match guard(|| build::<f64>(spec)) {
@@ -289,6 +336,21 @@ pub fn run(ctx: &Ctx) -> CheckOutput {
             }
             JobOut { stats: st, viols: sink.take(), samples: vec![json!({"explorer":"TREE (+CLOSURE for single views)","view":spec.name(),"depth":depth})] }
         }));
+    }
+    for n in if quick { vec![8usize, 11] } else { vec![5, 8, 11, 16, 23] } {
+        for e in unary_catalogue() {
+            if !e.has_n {
+                continue;
+            }
+            for spec in variants(e.kind, n, &Spec::echo()) {
+                jobs.push(Box::new(move || {
+                    let mut st = Stats::default();
+                    let sink = Sink::new();
+                    clone_after_slide(&spec, &mut st, &sink);
+                    JobOut { stats: st, viols: sink.take(), samples: vec![json!({"explorer":"LONG","view":spec.name(),"clause":"clones taken after the window has slid, inexact letters"})] }
+                }));
+            }
+        }
     }
     let o = run_jobs(jobs, ctx.seed);
     CheckOutput {
